@@ -1,6 +1,218 @@
-import PrimitivModel.Model.Cow
+import PrimitivModel.Lemmas.CowRefine
+import PrimitivModel.Lemmas.CowFree
+/-
+C07 — tensors have value semantics.
+
+Model: Model/Cow.lean (copy-on-write heap with use counts, exactly the sharing
+discipline of tensor.{h,cc}); specification: Spec/Cow.lean (a pool of plain
+values, no heap).  `absState` forgets the heap.  All statements are about every
+history of the protocol (lists of `Op`), from the empty state, by induction with
+the invariant `Inv` (use count = number of owners, no dangling handle, buffer
+length = shape size).
+-/
 namespace Primitiv.Cow
 
-theorem placeholder_init : liveCount init = 0 := rfl
+/-- pointwise agreement of two answer streams, `live` excepted (the abstract
+state has no buffers to count) -/
+def outsAgree : List Op → List Out → List Out → Prop
+  | [], [], [] => True
+  | op :: ops, o :: os, o' :: os' => (op ≠ .live → o = o') ∧ outsAgree ops os os'
+  | _, _, _ => False
+
+/-- **Refinement**, from any state satisfying the invariant: the model run is a
+run of the pure-value specification. -/
+theorem refines_from {s : State} (hs : Inv s) (ops : List Op) :
+    Inv (run s ops).1 ∧ absState (run s ops).1 = (Spec.run (absState s) ops).1 ∧
+    outsAgree ops (run s ops).2 (Spec.run (absState s) ops).2 := by
+  induction ops generalizing s with
+  | nil => exact ⟨hs, rfl, trivial⟩
+  | cons op ops ih =>
+    obtain ⟨h1, h2, h3⟩ := step_refines hs op
+    obtain ⟨i1, i2, i3⟩ := ih h1
+    simp only [run, Spec.run]
+    rw [← h2]
+    exact ⟨i1, i2, h3, i3⟩
+
+/-- **Cow.refines**: for every history from the empty state, the copy-on-write
+implementation is observationally the pure-value pool: same abstract state,
+same answers. -/
+theorem refines (ops : List Op) :
+    Inv (run init ops).1 ∧ absState (run init ops).1 = (Spec.run Spec.init ops).1 ∧
+    outsAgree ops (run init ops).2 (Spec.run Spec.init ops).2 :=
+  refines_from inv_init ops
+
+example : (run init [.new 0 [2, 3] 1 [1, 2, 3, 4, 5, 6], .copy 0 3, .reshape 0 6 [3, 2] 1, .iadd 0 6, .read 3]).2
+    = [.ok, .ok, .ok, .err, .vals ⟨[2, 3], 1, 6⟩ [1, 2, 3, 4, 5, 6]] := by decide
+
+/-- the reachable states -/
+def Reachable (s : State) : Prop := ∃ ops, s = (run init ops).1
+
+theorem reachable_inv {s : State} (h : Reachable s) : Inv s := by
+  obtain ⟨ops, rfl⟩ := h; exact (refines ops).1
+
+/-- **Isolation**: in every reachable state, an operation leaves the value of
+every object that is not one of its targets unchanged — whatever buffers are
+shared underneath (copies, reshape/flatten views, parameter values, `x += x`). -/
+theorem isolation {s : State} (h : Reachable s) (op : Op) (j : Nat) (hj : j ∉ Spec.targets op) :
+    getSlot (absState (step s op).1).pool j = getSlot (absState s).pool j := by
+  rw [(step_refines (reachable_inv h) op).2.1]
+  exact spec_isolation _ op j hj
+
+example : (6 : Nat) ∉ Spec.targets (.iadd 0 3) := by decide
+
+/-- … and the target gets the value the specification prescribes (one instance
+spelled out: `h += g` on valid operands of admissible shapes). -/
+theorem iadd_effect {s : State} (hr : Reachable s) {h g : Nat} {sy sx : Shape} {Y X : List Int}
+    (hh : getSlot (absState s).pool h = some (some (sy, Y))) (hg : getSlot (absState s).pool g = some (some (sx, X)))
+    (hc : (!sx.hasSameDims sy || !sx.hasCompatibleBatch sy) = false) :
+    getSlot (absState (step s (.iadd h g)).1).pool h = some (some (sy, arith (· + ·) sy sx Y (some X))) := by
+  rw [(step_refines (reachable_inv hr) _).2.1]
+  simp [Spec.step, Spec.inplace2, hh, hg, hc, Spec.setT]
+
+/-- **move_invalidates_source** (`g = std::move(h)`, `h ≠ g`): the source object
+is left invalid, the target holds the value the source had. -/
+theorem move_invalidates_source {s : State} (hr : Reachable s) {h g : Nat} (hne : h ≠ g) {v : Handle}
+    (hv : getSlot s.pool h = some v) :
+    (step s (.move h g)).2 = .ok ∧
+    getSlot (step s (.move h g)).1.pool h = some .invalid ∧
+    getSlot (absState (step s (.move h g)).1).pool h = some none ∧
+    getSlot (absState (step s (.move h g)).1).pool g = some (absHandle s.heap v) := by
+  have hs := reachable_inv hr
+  have hv' : getSlot (absState s).pool h = some (absHandle s.heap v) := by rw [abs_get, hv]; rfl
+  refine ⟨?_, ?_, ?_, ?_⟩
+  · simp [step, hv, hne]
+  · simp [step, hv, hne, replace]
+  · rw [(step_refines hs _).2.1]; simp [Spec.step, hv', hne, Spec.setT]
+  · rw [(step_refines hs _).2.1]
+    simp [Spec.step, hv', hne, Spec.setT, getSlot_setSlot, Ne.symm hne]
+
+example : getSlot (step (step init (.new 0 [2] 1 [1, 2])).1 (.move 0 3)).1.pool 0 = some .invalid := by decide
+
+/-- accessor or arithmetic use of the object in slot `h` -/
+def usesObject (h : Nat) : Op → Bool
+  | .read x | .shape x | .device x | .reset x _ | .resetv x _ | .imul x _ | .flatten x _ | .reshape x _ _ _ => x == h
+  | .iadd x y | .isub x y => x == h || y == h
+  | .piaddValue _ y => y == h
+  | _ => false
+
+/-- the other objects the operation names exist (otherwise the harness answers `noobj`) -/
+def operandsExist (s : State) : Op → Bool
+  | .iadd x y | .isub x y => (getSlot s.pool x).isSome && (getSlot s.pool y).isSome
+  | .piaddValue p _ => (getSlot s.pool (vslot p)).isSome
+  | _ => true
+
+/-- **invalid_rejects_everything**: every accessor (`to_vector`, `shape`, `device`)
+and every arithmetic or view use (`reset*`, `*=`, `+=`, `-=` on either side,
+`reshape`, `flatten`, `param.value() +=`) of an invalid tensor is `err` — never
+`crash`, never `ok` — and changes nothing.  No invariant is needed. -/
+theorem invalid_rejects_everything {s : State} {h : Nat} (hinv : getSlot s.pool h = some .invalid)
+    (op : Op) (hu : usesObject h op = true) (hex : operandsExist s op = true) :
+    step s op = (s, .err) := by
+  cases op <;> simp [usesObject] at hu
+  case read x => subst hu; simp [step, hinv]
+  case shape x => subst hu; simp [step, hinv]
+  case device x => subst hu; simp [step, hinv]
+  case reset x k => subst hu; simp [step, hinv]
+  case resetv x vals => subst hu; simp [step, hinv]
+  case imul x k => subst hu; simp [step, hinv]
+  case flatten x g => subst hu; simp [step, viewOp, hinv]
+  case reshape x g dims batch =>
+    subst hu
+    simp only [step, hinv, withShape]
+    cases hn : Shape.new dims batch with
+    | error e =>
+      cases e with
+      | error => rfl
+      | crash => exact absurd hn (shape_new_ne_crash dims batch)
+    | ok nsh => simp [viewOp, hinv]
+  case iadd x y =>
+    simp [operandsExist] at hex
+    rcases hu with hu | hu <;> subst hu
+    · cases hy : getSlot s.pool y with
+      | none => simp [hy] at hex
+      | some v => cases v <;> simp [step, inplace2, hinv, hy]
+    · cases hx : getSlot s.pool x with
+      | none => simp [hx] at hex
+      | some v => cases v <;> simp [step, inplace2, hinv, hx]
+  case isub x y =>
+    simp [operandsExist] at hex
+    rcases hu with hu | hu <;> subst hu
+    · cases hy : getSlot s.pool y with
+      | none => simp [hy] at hex
+      | some v => cases v <;> simp [step, inplace2, hinv, hy]
+    · cases hx : getSlot s.pool x with
+      | none => simp [hx] at hex
+      | some v => cases v <;> simp [step, inplace2, hinv, hx]
+  case piaddValue p y =>
+    subst hu
+    simp [operandsExist] at hex
+    cases hx : getSlot s.pool (vslot p) with
+    | none => simp [hx] at hex
+    | some v =>
+      simp only [step, hinv]
+      by_cases hf : s.pvalid.getD p false = true
+      · rw [if_pos hf]; cases v <;> simp [inplace2, hinv, hx]
+      · rw [if_neg hf]
+
+example : getSlot (run init [.new 0 [2] 1 [1, 2], .move 0 3]).1.pool 0 = some .invalid := by decide
+
+/-- **no_crash**: in no reachable state does any operation make the model touch
+freed memory, run past a buffer, or otherwise leave defined behaviour. -/
+theorem no_crash {s : State} (hr : Reachable s) (op : Op) : (step s op).2 ≠ .crash := by
+  by_cases hop : op = .live
+  · subst hop; simp [step]
+  · rw [(step_refines (reachable_inv hr) op).2.2 hop]
+    exact spec_never_crashes _ op
+
+/-! ### buffers: freed exactly when the last owner goes, never twice -/
+
+theorem reachable_step {s : State} (hr : Reachable s) (op : Op) : Reachable (step s op).1 := by
+  obtain ⟨ops, rfl⟩ := hr
+  exact ⟨ops ++ [op], (run_snoc init ops op).symm⟩
+
+/-- a buffer is live exactly as long as some Tensor object holds it: it is freed
+exactly when its use count reaches 0 -/
+theorem freed_iff_unreferenced {s : State} (hr : Reachable s) (b : Nat) :
+    getSlot s.heap b = none ↔ refs s.pool b = 0 := by
+  have hs := reachable_inv hr
+  have hrc := hs.rc b
+  constructor
+  · intro h; rw [← hrc]; simp [rcOf, h]
+  · intro h
+    cases hb : getSlot s.heap b with
+    | none => rfl
+    | some bf =>
+      have := hs.pos b bf hb
+      simp [rcOf, hb] at hrc
+      omega
+
+theorem use_count_exact {s : State} (hr : Reachable s) (b : Nat) : rcOf s.heap b = refs s.pool b :=
+  (reachable_inv hr).rc b
+
+/-- **no_leak**: when no valid Tensor object is left (all dropped, invalidated or
+moved from), no device buffer is left either. -/
+theorem no_leak {s : State} (hr : Reachable s) (hall : ∀ i sh b, getSlot s.pool i ≠ some (.valid sh b)) :
+    liveCount s = 0 := by
+  apply filter_isSome_of_all_none
+  intro b
+  rw [freed_iff_unreferenced hr]
+  apply refs_zero_of_none
+  intro i hb
+  obtain ⟨sh, hv⟩ := bufOf_eq_some hb
+  exact hall i sh b hv
+
+example : liveCount (run init [.new 0 [2] 1 [1, 2], .copy 0 3, .param 0 [2] 1 [5, 6], .ptensor 0 6,
+    .drop 0, .invalidate 3, .pdrop 0, .move 6 9, .drop 9]).1 = 0 := by decide
+
+/-- **no_double_free**: a freed buffer stays freed for ever — its id is not
+reused, no later operation touches it, and no object refers to it. -/
+theorem no_double_free {s : State} (hr : Reachable s) (op : Op) (b : Nat)
+    (hb : b < s.heap.length) (hf : getSlot s.heap b = none) :
+    b < (step s op).1.heap.length ∧ getSlot (step s op).1.heap b = none ∧ refs (step s op).1.pool b = 0 := by
+  have he := evo_step s op
+  have h2 := he.2 b hb hf
+  exact ⟨Nat.lt_of_lt_of_le hb he.1, h2, (freed_iff_unreferenced (reachable_step hr op) b).1 h2⟩
+
+example : getSlot (run init [.new 0 [2] 1 [1, 2], .drop 0, .new 0 [2] 1 [3, 4]]).1.heap 0 = none := by decide
 
 end Primitiv.Cow
